@@ -90,8 +90,22 @@ TWok(r) ==
   /\ Len(r.xre) = n /\ Len(r.xim) = n /\ Len(r.Xre) = n /\ Len(r.Xim) = n /\ InScale(r.Xre) /\ InScale(r.Xim)
   /\ ValuesOk(n, r.xre, r.xim, r.Xre, r.Xim, r.kX, r.wre, r.wim, r.wk, 13)
 
+(* ---- multi-dimensional transform characterised through per-axis twiddle tables ---- *)
+TWNok(r) ==
+  \E N \in {CSize(r.n)} :
+  /\ ~r.err /\ GoodShape(r)
+  /\ \A s \in {r.t1re, r.t1im, r.t2re, r.t2im, r.t3re, r.t3im, r.Xre, r.Xim} : Len(s) = N
+  /\ InScale(r.Xre) /\ InScale(r.Xim)
+  /\ \E tabs \in {<< AxisTable(r.n, 1, r.t1re, r.t1im), AxisTable(r.n, 2, r.t2re, r.t2im), AxisTable(r.n, 3, r.t3re, r.t3im) >>} :
+     /\ \A d \in CAxes : TableOk(r.n[d], r.sign, tabs[d].re, tabs[d].im, r.wk)
+     /\ AxisOnly(r.n, 1, r.t1re, r.t1im, tabs[1]) /\ AxisOnly(r.n, 2, r.t2re, r.t2im, tabs[2]) /\ AxisOnly(r.n, 3, r.t3re, r.t3im, tabs[3])
+     /\ Len(r.pos) = Len(r.are) /\ Len(r.pos) = Len(r.aim) /\ Len(r.pos) >= 1
+     /\ \A i \in 1..Len(r.pos) : \A d \in CAxes : r.pos[i][d] \in 0..(r.n[d] - 1)
+     /\ SparseValuesOk(r.n, tabs, r.pos, r.are, r.aim, r.Xre, r.Xim, r.kX, r.wk)
+
 Explains(r) ==
   CASE r.e = "FI" -> FIok(r)
+    [] r.e = "TWN" -> TWNok(r)
     [] r.e = "RC" -> RCok(r)
     [] r.e = "TW" -> TWok(r)
     [] OTHER -> FALSE
